@@ -113,7 +113,7 @@ func (ts *txnState) actor(name string, a plan.Actor) {
 		old := cl
 		oldName := fmt.Sprintf("%s.%d", name, inc)
 		done := make(chan struct{})
-		go func() { old.Close(); close(done) }()
+		go func() { s.CloseCl(old, false); close(done) }()
 		select {
 		case <-done:
 			s.Forget(oldName)
